@@ -1049,6 +1049,56 @@ func valueFlow(fd *ast.FuncDecl, origins ...string) []string {
 	return out
 }
 
+// ---------- F-doc : the Javadoc accessors of model/javadoc.go ----------
+
+// docAccessors classifies every GetComment* method of *Javadoc: (method, tag name, shape) where shape is
+// "first" for  `for _, tag := range j.Tags { if tag.TagName == "<name>" { return tag.Text } }; return ""`,
+// "all" for the appending loop, and "other" for anything else.
+func docAccessors(f *ast.File) [][3]string {
+	var out [][3]string
+	for _, d := range f.Decls {
+		fd, ok := d.(*ast.FuncDecl)
+		if !ok || fd.Recv == nil || !strings.HasPrefix(fd.Name.Name, "GetComment") || fd.Body == nil {
+			continue
+		}
+		shape, tagName := "other", ""
+		stmts := fd.Body.List
+		loopAt := -1
+		for i, st := range stmts {
+			if _, ok := st.(*ast.RangeStmt); ok {
+				loopAt = i
+				break
+			}
+		}
+		if loopAt >= 0 {
+			rs := stmts[loopAt].(*ast.RangeStmt)
+			if strings.HasSuffix(src(rs.X), ".Tags") && len(rs.Body.List) == 1 {
+				if is, ok := rs.Body.List[0].(*ast.IfStmt); ok && is.Else == nil && len(is.Body.List) == 1 {
+					if be, ok := is.Cond.(*ast.BinaryExpr); ok && be.Op == token.EQL && strings.HasSuffix(src(be.X), ".TagName") {
+						if lit, ok := strLit(be.Y); ok {
+							tagName = lit
+							switch inner := is.Body.List[0].(type) {
+							case *ast.ReturnStmt:
+								if loopAt == 0 && len(stmts) == 2 && len(inner.Results) == 1 && strings.HasSuffix(src(inner.Results[0]), ".Text") {
+									if r, ok := stmts[1].(*ast.ReturnStmt); ok && len(r.Results) == 1 && src(r.Results[0]) == `""` {
+										shape = "first"
+									}
+								}
+							case *ast.AssignStmt:
+								if loopAt == 1 && len(stmts) == 3 && strings.Contains(src(inner), "append(") && strings.HasSuffix(strings.TrimSuffix(src(inner), ")"), ".Text") {
+									shape = "all"
+								}
+							}
+						}
+					}
+				}
+			}
+		}
+		out = append(out, [3]string{fd.Name.Name, tagName, shape})
+	}
+	return out
+}
+
 // ---------- fingerprints ----------
 
 func fingerprint(fd *ast.FuncDecl) string {
@@ -1181,6 +1231,14 @@ func main() {
 	b.WriteString("def poolCollectShape : List String := " + leanStrList(pf.Collect) + "\n\n")
 
 	// json keys
+	b.WriteString("def docAccessors : List (String × String × String) := [")
+	for i, a := range docAccessors(parseFile(filepath.Join(sp, "model", "javadoc.go"))) {
+		if i > 0 {
+			b.WriteString(", ")
+		}
+		fmt.Fprintf(&b, "(%s, %s, %s)", leanStr(a[0]), leanStr(a[1]), leanStr(a[2]))
+	}
+	b.WriteString("]\n")
 	b.WriteString("def bundleProducerBytesFlow : List String := " + leanStrList(valueFlow(findFunc(gens, "processDirectory"), "json.MarshalIndent", "json.Marshal")) + "\n")
 	b.WriteString("def bundleConsumerBytesFlow : List String := " + leanStrList(valueFlow(findFunc(ci, "downloadRuleset"), "io.ReadAll", "ioutil.ReadAll")) + "\n")
 	b.WriteString("def bundleProducerTop : List String := " + leanStrList(structTags(gens, "CQLFiles")) + "\n")
@@ -1397,6 +1455,37 @@ func main() {
 	for _, d := range lst.Decls {
 		if fd, ok := d.(*ast.FuncDecl); ok {
 			fps["listener."+fd.Name.Name] = fingerprint(fd)
+		}
+	}
+	// every function of every non-test source file the properties are anchored in, keyed "<file>:<func>"
+	// (drives the adaptive depth of the correspondence checks: a changed function deepens the search)
+	for _, dir := range []string{"sourcecode-parser/graph", "sourcecode-parser/graph/java", "sourcecode-parser/cmd", "sourcecode-parser/model",
+		"sourcecode-parser/antlr", "sourcecode-parser", "pathfinder-rules/gen-script"} {
+		ents, err := os.ReadDir(filepath.Join(repo, dir))
+		if err != nil {
+			continue
+		}
+		for _, e := range ents {
+			n := e.Name()
+			if e.IsDir() || !strings.HasSuffix(n, ".go") || strings.HasSuffix(n, "_test.go") || strings.HasPrefix(n, "verif_") {
+				continue
+			}
+			if dir == "sourcecode-parser/antlr" && n != "listener_impl.go" {
+				continue // generated lexer/parser: pinned by Query.g4, which g4gen reads
+			}
+			for _, d := range parseFile(filepath.Join(repo, dir, n)).Decls {
+				switch x := d.(type) {
+				case *ast.FuncDecl:
+					name := x.Name.Name
+					if x.Recv != nil && len(x.Recv.List) > 0 {
+						name = strings.TrimPrefix(src(x.Recv.List[0].Type), "*") + "." + name
+					}
+					fps[dir+"/"+n+":"+name] = fingerprint(x)
+				case *ast.GenDecl:
+					h := sha256.Sum256([]byte(src(x)))
+					fps[dir+"/"+n+":decl@"+hex.EncodeToString(h[:4])] = hex.EncodeToString(h[:8])
+				}
+			}
 		}
 	}
 	jb, _ := json.MarshalIndent(fps, "", " ")
